@@ -10,14 +10,14 @@ LEVEL = 'proof'
 TIE = {'approval.ProportionalApproval / SequentialProportionalApproval': 'correspondence',
        'convert.ScoreToSimpleVotes (corrections, truncation, aggregation), cardinal.ScoreVoting, MajorityJudgment (default, plus)': 'correspondence',
        'cardinal.STAR (default configuration; Schulze run-off with the candidate order of the pairwise dictionary, results compared as sets)': 'correspondence',
-       'cardinal.AllocatedScore*': 'implementation-side reference checks only'}
+       'cardinal.AllocatedScoreSelector / AllocatedScoreDistributor (prev_gains, max_seats; the iteration order of a Tie frozenset is an argument of the model, read off Python per candidate set)': 'correspondence'}
 RULE = ('corpus; approval profiles over 2..6 candidates (1..7 distinct ballots, weights 1..5) x n 1..|C| through PAV (fresh object per '
         'call and a shared object) and SPAV; score profiles over 2..5 candidates, grades 0..5, partial ballots, through ScoreVoting and '
         'MajorityJudgment with function in {mean,sum,median_low}, unscored_value in {None,0,min}, min_count in {0,2}, truncation in {0,1,1/10}, '
-        'tie_breaking in {default,plus}; a single-seat stream of complete ballots with grades 0..2 (level medians, close STAR run-offs); STAR through the model and (run-off of two) a reference, allocated score against an independent Python reference. Declarative '
+        'tie_breaking in {default,plus}; a single-seat stream of complete ballots with grades 0..2 (level medians, close STAR run-offs); STAR through the model and (run-off of two) a reference; allocated score (selector; distributor with prev_gains / max_seats; Hare and Droop; 1..m seats; integer and fractional weights; few-grade profiles with level leaders) through Model/AllocScore.v - order of election and exception class compared exactly - and against an independent Python reference. Declarative '
         'clauses on implementation outputs: PAV committee = unique brute-force maximiser of the harmonic satisfaction (refusal iff not unique) '
         'and satisfies justified representation; SPAV round = unique argmax. non-trivial = more than two ballots; distinct by case hash')
-PARTIAL = ['allocated score: no Coq model; checked against a Python reference',
+PARTIAL = ['allocated score: the clause is proved for every round without a tie and positive ballot weights; rounds with level leaders follow the code (all elected in set-iteration order, or one tie entry for several seats: C12_alloc_tie_*_refuted) and the ValueError of the subtraction loop is characterised exactly (crash_cond, C12_alloc_crash_refuted)',
            'STAR: the run-off clause is proved for one seat with two untied finalists (C12_star_runoff); other run-off sizes are modelled and compared only',
            'MJ default tie-break for more than one seat: only the median clause (C12_mj_highest_median) is proved']
 TRUSTED = []
